@@ -24,6 +24,8 @@ class IC10Register:
 
     nodes_reading: list[nodes.NodeNG] = field(default_factory=list)
     nodes_writing: list[nodes.NodeNG] = field(default_factory=list)
+    # accesses through other names that stand for this register (x in 'x = y')
+    nodes_alias: list[nodes.NodeNG] = field(default_factory=list)
 
     def __hash__(self):
         return hash((self.code_expr, self.scope))
@@ -68,7 +70,7 @@ class IC10Register:
                     break
 
         if self._lifetime is None:
-            accesses = self.nodes_reading + self.nodes_writing
+            accesses = self.nodes_reading + self.nodes_writing + self.nodes_alias
             all_nodes = [get_loop_ancestor(n, accesses) for n in accesses]
             min_line = (
                 min(node.lineno for node in all_nodes) if all_nodes else sys.maxsize
